@@ -173,6 +173,14 @@ class Engine(ExprMixin, CallMixin, BuiltinMixin, ApplyMixin, StmtMixin, _Base):
             if ks in NATIVE and pt == "dict":
                 kx = self.bv("kx")
                 st.facts.append(z3.ForAll([kx], z3.Implies(v.dhas(sv.t, kx), v.ty(kx) == v.cls[ks]), patterns=[v.dhas(sv.t, kx)]))
+        enc = self.repo.funcs.get(getattr(fi, "enclosing", None) or "")
+        if enc is not None:
+            ea = enc.node.args
+            for x in ea.args + ea.kwonlyargs:
+                if x.arg not in st.env:
+                    sv = self.fresh_sv("free_" + x.arg, c.sorts.get(x.arg, "any"))
+                    st.env[x.arg] = sv
+                    st.facts.append(born(sv.t) == 0)
         st.eff = z3.IntVal(0)
         return st
 
